@@ -76,4 +76,13 @@ theorem put_absent {st : Store} {ue : Bytes} {rg : Nat} (q : Quota) (h : find st
     · simp only [hk, if_false] at h
       simp [put, hk, ih h]
 
+/-- what the reply and the addressed account look like after a request on a known account -/
+theorem handleCCR_known {st : Store} {c : CCR} {q : Quota} {quota : Int}
+    (hf : find st (subscriberId c) c.rg = some q) (hp : q.parse = some quota) :
+    handleCCR st c =
+      (put st (subscriberId c) c.rg (.num (effect quota c).1),
+       .answer c.sess c.reqType c.reqNum (effect quota c).2.1 (effect quota c).2.2) := by
+  unfold handleCCR
+  rw [hf]; simp only [hp]
+
 end Chf.Abmf
